@@ -1,6 +1,7 @@
 """C13 - segments are maximal positive-scoring runs that respect both thresholds."""
 import itertools
 
+from vf import core
 from vf import e2e, gen, hooks, models, pipeline
 from vf.core import Shard, rng_for
 
@@ -171,7 +172,7 @@ def run_e2e(spec, sh):
                                  param_keys=('ms', 'bs', 'd', 'su', 'dp'))
         case['kind'] = 'e2e'
         case['gen'] = [spec['seed'], spec['shard'], i]
-        judge_e2e(case, spec['workdir'], sh)
+        core.isolated(judge_e2e, sh, case, spec['workdir'])
     if hooks.MONITOR_ERRORS:
         sh.inconclusive.append('monitor errors: %s' % hooks.MONITOR_ERRORS[:3])
 
